@@ -4,6 +4,7 @@ import (
 	"encoding/json"
 	"fmt"
 	"go/ast"
+	"go/constant"
 	"go/token"
 	"go/types"
 	"os"
@@ -110,18 +111,30 @@ func ruleGetTemplate(c *Ctx, r *Repo, ip *packages.Package) {
 	}
 	c.Func(funcKey(ip, fd))
 	// protocols
+	// the list of URL schemes that make a template name a custom template: the []string literal of
+	// "<scheme>://" constants in getTemplate (ranged over, or handed to a slices predicate)
 	var protos []string
 	var loop *ast.RangeStmt
+	var protoLit *ast.CompositeLit
 	ast.Inspect(fd.Body, func(n ast.Node) bool {
-		if rs, ok := n.(*ast.RangeStmt); ok && loop == nil {
-			if cl, ok := rs.X.(*ast.CompositeLit); ok {
-				loop = rs
-				for _, e := range cl.Elts {
-					if lit, ok := e.(*ast.BasicLit); ok {
-						protos = append(protos, strings.Trim(lit.Value, `"`))
-					}
-				}
+		cl, ok := n.(*ast.CompositeLit)
+		if !ok || protoLit != nil || !typeIs(info.TypeOf(cl), "[]string") || len(cl.Elts) == 0 {
+			return true
+		}
+		var vals []string
+		for _, e := range cl.Elts {
+			tv := info.Types[e]
+			if tv.Value == nil || tv.Value.Kind() != constant.String || !strings.HasSuffix(constant.StringVal(tv.Value), "://") {
+				return true
 			}
+			vals = append(vals, constant.StringVal(tv.Value))
+		}
+		protoLit, protos = cl, vals
+		return true
+	})
+	ast.Inspect(fd.Body, func(n ast.Node) bool {
+		if rs, ok := n.(*ast.RangeStmt); ok && loop == nil && protoLit != nil && ast.Unparen(rs.X) == ast.Expr(protoLit) {
+			loop = rs
 		}
 		return true
 	})
@@ -129,9 +142,9 @@ func ruleGetTemplate(c *Ctx, r *Repo, ip *packages.Package) {
 	var dl []string
 	if dfd := FuncDecl(ip, "download"); dfd != nil {
 		ast.Inspect(dfd.Body, func(n ast.Node) bool {
-			if call, ok := n.(*ast.CallExpr); ok && calleeName(info, call) == "strings.HasPrefix" && len(call.Args) == 2 {
-				if lit, ok := call.Args[1].(*ast.BasicLit); ok {
-					dl = append(dl, strings.Trim(lit.Value, `"`))
+			if call, ok := n.(*ast.CallExpr); ok && (calleeName(info, call) == "strings.HasPrefix" || calleeName(info, call) == "strings.CutPrefix") && len(call.Args) == 2 {
+				if tv := info.Types[call.Args[1]]; tv.Value != nil && tv.Value.Kind() == constant.String {
+					dl = append(dl, constant.StringVal(tv.Value))
 				}
 			}
 			return true
@@ -139,15 +152,24 @@ func ruleGetTemplate(c *Ctx, r *Repo, ip *packages.Package) {
 	}
 	sort.Strings(dl)
 	c.Check(len(protos) > 0 && strings.Join(protos, ",") == strings.Join(dl, ","), "R12.3", "getTemplate|protocols", r.Pos(fd.Pos()), "custom-template prefixes "+strings.Join(protos, ","), fmt.Sprintf("getTemplate treats %v as custom templates but download accepts %v", protos, dl))
-	if loop != nil {
+	if protoLit != nil {
 		d := newDT(info)
 		start := seedEnv(d, fd)
 		d.paths = nil
-		d.stmts(start, loop.Body.List, func(p *dtPath) { d.finish(p, "end") })
+		if loop != nil {
+			d.stmts(start, loop.Body.List, func(p *dtPath) { d.finish(p, "end") })
+		} else {
+			// no loop over the schemes: the whole function, with "is a custom template" decided by a
+			// slices predicate over the scheme list
+			d.stmts(start, fd.Body.List, func(p *dtPath) { d.finish(p, "end") })
+		}
 		ok := len(d.paths) > 0
 		rows := map[string]bool{}
 		for _, p := range d.paths {
 			match, has := atomVal(p, "strings.HasPrefix(RECV.templateName, ")
+			if loop == nil {
+				match, has = atomVal(p, "slices.ContainsFunc(")
+			}
 			if !has {
 				ok = false
 				continue
@@ -181,7 +203,7 @@ func ruleGetTemplate(c *Ctx, r *Repo, ip *packages.Package) {
 				}
 			}
 		}
-		c.Check(ok && rows["true"] && rows["false"], "R12.3", "getTemplate|custom-schema-selection", r.Pos(loop.Pos()), "schema fetched iff require flag; errors returned", "custom-template schema selection is not 'fetch iff require-template-schema-exists, errors returned, nil only when not required'")
+		c.Check(ok && rows["true"] && rows["false"], "R12.3", "getTemplate|custom-schema-selection", r.Pos(protoLit.Pos()), "schema fetched iff require flag; errors returned", "custom-template schema selection is not 'fetch iff require-template-schema-exists, errors returned, nil only when not required'")
 	}
 	ruleRemoteCache(c, r, "R12.3")
 	ruleCacheKey(c, r, "R12.3")
@@ -212,7 +234,11 @@ func ruleGetTemplate(c *Ctx, r *Repo, ip *packages.Package) {
 							if cl, ok := vs.Values[i].(*ast.CompositeLit); ok {
 								for _, el := range cl.Elts {
 									kv := el.(*ast.KeyValueExpr)
-									out[strings.Trim(types.ExprString(kv.Key), `"`)] = types.ExprString(kv.Value)
+									key := strings.Trim(types.ExprString(kv.Key), `"`)
+									if tv := info.Types[kv.Key]; tv.Value != nil && tv.Value.Kind() == constant.String {
+										key = constant.StringVal(tv.Value) // a named constant as key
+									}
+									out[key] = types.ExprString(kv.Value)
 								}
 							}
 						}
